@@ -137,6 +137,25 @@ func stringLeaves(v reflect.Value, path []string, out map[string]string) {
 	}
 }
 
+// goLeaves collects the string leaves below v keyed by their Go field path
+func goLeaves(v reflect.Value, path []string, out map[string]string) {
+	switch v.Kind() {
+	case reflect.Ptr:
+		if !v.IsNil() {
+			goLeaves(v.Elem(), path, out)
+		}
+	case reflect.Struct:
+		t := v.Type()
+		for i := 0; i < t.NumField(); i++ {
+			if t.Field(i).IsExported() {
+				goLeaves(v.Field(i), append(append([]string{}, path...), t.Field(i).Name), out)
+			}
+		}
+	case reflect.String:
+		out[strings.Join(path, ".")] = v.String()
+	}
+}
+
 func setAllStrings(v reflect.Value, prefix string, n *int) {
 	switch v.Kind() {
 	case reflect.Struct:
@@ -378,6 +397,39 @@ func init() {
 				}
 			}
 			o.Case("prop:json-client-agree", res, "server-to-client", tn)
+			// element by element: the value of the server's Go field path P must arrive in the client model's
+			// field path P, when the client model of this tag has one (exchanged names keep the set of names)
+			res = "same"
+			var top map[string]json.RawMessage
+			_ = json.Unmarshal(b, &top)
+			cv := reflect.ValueOf(&c).Elem()
+			for i := 0; i < cv.NumField(); i++ {
+				jn := strings.Split(cv.Type().Field(i).Tag.Get("json"), ",")[0]
+				if raw, has := top[jn]; !has || string(raw) == "null" || jn == "id" {
+					continue
+				}
+				leaves := map[string]string{}
+				goLeaves(cv.Field(i), nil, leaves)
+				var crossed []string
+				for k, v := range vals {
+					if got, has := leaves[tt.Elems[k].Path]; has && got != v {
+						where := "nowhere"
+						for p, x := range leaves {
+							if x == v {
+								where = p
+							}
+						}
+						if where != "nowhere" { // a lost element is the business of the case above
+							crossed = append(crossed, fmt.Sprintf("%s arrives in %s", tt.Elems[k].Path, where))
+						}
+					}
+				}
+				if len(crossed) > 0 {
+					sort.Strings(crossed)
+					res = fmt.Sprintf("differ:elements of %s cross [%s]", tn, strings.Join(crossed, "; "))
+				}
+			}
+			o.Case("prop:json-client-agree", res, "server-to-client-elementwise", tn)
 		}
 		// client -> server: fill each member of the client message, encode, load with the library
 		{
